@@ -88,6 +88,9 @@ type Scenario struct {
 	WriteLatUs int
 	// Timeout5s makes every action use the minimum timeout (5s) instead of the default; needed for overrun scripts.
 	Timeout5s bool
+	// CancelStartUs != 0: the context handed to Start is cancelled that many µs after Start returned (< 0: at once).
+	// "Cancelling the Context will not Stop execution" (doc of Start), so nothing observable may change.
+	CancelStartUs int
 }
 
 func (c *ChecksSpec) groups() []ActionSpec {
